@@ -11,7 +11,8 @@
 //!     streams than the stream-count limit (opening waits for MAX_STREAMS);
 //!   * a FAULT profile aimed at control frames (`CtrlAdversary`, per direction): every k-th datagram held back until n later
 //!     ones passed it (or a time bound), copies of old datagrams delivered long after, burst loss of small datagrams (the
-//!     ACK / window-update carriers of a return path), asymmetric delay with jitter.  All faults stop (datagram-count and
+//!     ACK / window-update carriers of a return path), burst loss of EXACTLY the datagrams whose 1-RTT packet carries a
+//!     MAX_* frame (matched with the sender's own `packet_sent` log), asymmetric delay with jitter.  All faults stop (datagram-count and
 //!     time window), so the bounded-fault liveness monitor applies: everything completes, byte-exact, within 120 s virtual.
 //!
 //! Monitors: C02's (integrity, panic, hang, close-by-network-fault, liveness:bounded-faults-incomplete, close-not-seen) and
@@ -194,6 +195,10 @@ struct DirFaults {
     /// 1…`burst_len` small datagrams of the direction
     small_burst: u64,
     burst_len: u64,
+    /// per mille: a datagram that CARRIES A WINDOW UPDATE (a 1-RTT packet with a MAX_DATA / MAX_STREAM_DATA / MAX_STREAMS frame,
+    /// known from the sender's own `packet_sent` log — the adversary cannot decrypt, the harness can correlate) starts a loss
+    /// burst over the next 1…`burst_len` update-carrying datagrams of the direction
+    update_burst: u64,
     /// constant extra one-way delay (kept for the whole connection: a property of the path, not a fault) and jitter (a fault)
     delay_ms: u64,
     jitter_ms: u64,
@@ -214,13 +219,17 @@ fn draw_profile(rng: &mut Rng) -> CtrlProfile {
     let dup = |rng: &mut Rng| DirFaults { late_dup: rng.range(100, 300), late_dup_ms: *rng.pick(&[100u64, 500, 3000]), ..Default::default() };
     let burst = |rng: &mut Rng| DirFaults { small_burst: rng.range(100, 400), burst_len: rng.range(1, 5), ..Default::default() };
     let none = DirFaults::default;
-    let (name, dir) = match rng.below(9) {
+    let (name, dir) = match rng.below(12) {
         0 => ("clean", [none(), none()]),
         1 => ("hold-s2c", [none(), hold(rng)]),
         2 => ("hold-c2s", [hold(rng), none()]),
         3 => ("hold-both", [hold(rng), hold(rng)]),
         4 => ("stale-dup", [dup(rng), dup(rng)]),
         5 => ("ctrl-burst-loss", [burst(rng), burst(rng)]),
+        9 | 10 => {
+            let upd = |rng: &mut Rng| DirFaults { update_burst: rng.range(200, 700), burst_len: rng.range(1, 4), ..Default::default() };
+            ("update-burst-loss", [upd(rng), upd(rng)])
+        }
         6 => {
             let mut d = [none(), none()];
             let k = rng.below(2) as usize;
@@ -235,6 +244,7 @@ fn draw_profile(rng: &mut Rng) -> CtrlProfile {
                 x.late_dup = rng.range(0, 150);
                 x.late_dup_ms = *rng.pick(&[100u64, 500, 3000]);
                 x.small_burst = rng.range(0, 150);
+                x.update_burst = rng.range(0, 300);
                 x.burst_len = rng.range(1, 3);
                 x.jitter_ms = rng.range(0, 10);
             }
@@ -265,13 +275,39 @@ struct CtrlAdversary {
     n: [u64; 2],
     held: [Vec<Held>; 2],
     burst_left: [u64; 2],
+    upd_burst_left: [u64; 2],
+    /// the endpoints' packet log and how far each direction has been matched against the datagrams seen
+    tap: std::sync::Arc<PacketTap>,
+    tap_pos: [usize; 2],
     /// timed copies to withdraw because the held datagram was released early
     cancel: HashMap<u64, u32>,
 }
 
 impl CtrlAdversary {
-    fn new(rng: Rng, p: CtrlProfile) -> Self {
-        CtrlAdversary { rng, p, server: sim::SERVER_ADDR.parse().unwrap(), n: [0; 2], held: [vec![], vec![]], burst_left: [0; 2], cancel: HashMap::new() }
+    fn new(rng: Rng, p: CtrlProfile, tap: std::sync::Arc<PacketTap>) -> Self {
+        CtrlAdversary { rng, p, server: sim::SERVER_ADDR.parse().unwrap(), n: [0; 2], held: [vec![], vec![]], burst_left: [0; 2], upd_burst_left: [0; 2], tap, tap_pos: [0; 2], cancel: HashMap::new() }
+    }
+    /// Does the datagram `d` of direction `k` carry a window update?  A short-header datagram is matched with the next
+    /// unmatched 1-RTT `packet_sent` event of its sender (one 1-RTT packet per datagram; long-header datagrams are the
+    /// handshake and carry none).
+    fn carries_update(&mut self, k: usize, d: &Dgram) -> bool {
+        if d.data.first().is_none_or(|b| b & 0x80 != 0) {
+            return false;
+        }
+        let ep = if k == 0 { "client" } else { "server" };
+        let mut found: Option<(usize, bool)> = None;
+        self.tap.scan_from(self.tap_pos[k], |i, e| {
+            if found.is_none() && !e.rcvd && e.ep == ep && e.ty == "1RTT" {
+                found = Some((i, e.frames.iter().any(|f| f.starts_with("max_"))));
+            }
+        });
+        match found {
+            Some((i, upd)) => {
+                self.tap_pos[k] = i + 1;
+                upd
+            }
+            None => false,
+        }
     }
     fn dir_of(&self, d: &Dgram) -> usize {
         if d.dst == self.server { 0 } else { 1 }
@@ -287,8 +323,17 @@ impl Adversary for CtrlAdversary {
         let mut out = vec![];
         self.n[k] += 1;
         let mut passes = true;
+        let upd = f.update_burst > 0 && self.carries_update(k, d);
         if active {
-            if d.data.len() < 200 && (self.burst_left[k] > 0 || self.rng.below(1000) < f.small_burst) {
+            if upd && (self.upd_burst_left[k] > 0 || self.rng.below(1000) < f.update_burst) {
+                if self.upd_burst_left[k] > 0 {
+                    self.upd_burst_left[k] -= 1;
+                } else {
+                    self.upd_burst_left[k] = self.rng.range(1, f.burst_len.max(1)) - 1;
+                }
+                log.bump("drop_update");
+                passes = false;
+            } else if d.data.len() < 200 && (self.burst_left[k] > 0 || self.rng.below(1000) < f.small_burst) {
                 if self.burst_left[k] > 0 {
                     self.burst_left[k] -= 1;
                 } else {
@@ -374,6 +419,9 @@ struct Flow {
     adv_ms: BTreeMap<String, u64>,
     /// *_BLOCKED frames this endpoint sent
     blocked: u64,
+    /// limit named by the latest DATA_BLOCKED frame this endpoint sent (reported only: the frame is queued when the limit is
+    /// hit and may leave, or be retransmitted, after newer MAX_DATA frames were processed — it does not prove anything)
+    last_data_blocked: Option<u64>,
     frames_rcvd: BTreeMap<String, u64>,
 }
 
@@ -381,6 +429,9 @@ fn flow_of(pk: &[PktEv], ep: &str) -> Flow {
     let mut f = Flow::default();
     for e in pk.iter().filter(|e| e.ep == ep) {
         for fr in &e.detail {
+            if !e.rcvd && fr.ty == "data_blocked" {
+                f.last_data_blocked = fr.limit;
+            }
             if e.rcvd {
                 *f.frames_rcvd.entry(fr.ty.clone()).or_insert(0) += 1;
                 match fr.ty.as_str() {
@@ -423,8 +474,10 @@ fn initial_stream_limit(ep: &str, sid: u64, peer: &Side) -> u64 {
 }
 
 /// `stall:flow-control:*` diagnosis of an incomplete case: (key, text) per finding.
-fn diagnose(pk: &[PktEv], plans: &[Plan], c: &Side, s: &Side) -> Vec<(String, String)> {
+fn diagnose(pk: &[PktEv], plans: &[Plan], c: &Side, s: &Side) -> (Vec<(String, String)>, Vec<String>) {
     let mut out = vec![];
+    // observations that do not prove a flow-control stall (reported inside the liveness message only)
+    let mut hints = vec![];
     for (ep, peer_name, peer) in [("client", "server", s), ("server", "client", c)] {
         let me = flow_of(pk, ep);
         let pf = flow_of(pk, peer_name);
@@ -439,9 +492,11 @@ fn diagnose(pk: &[PktEv], plans: &[Plan], c: &Side, s: &Side) -> Vec<(String, St
         }).sum();
         if sent < to_send {
             if let Some(last) = md_last.filter(|l| *l < md_max && sent >= *l) {
+                // the sender stopped between a stale update and the largest one: what a send limit that moved BACKWARDS looks
+                // like from outside (a sender stalled there for another reason looks the same — the wording says "consistent with")
                 out.push(("stall:flow-control:conn".into(), format!(
-                    "{ep} stopped sending after {sent} of {to_send} bytes: the last MAX_DATA it processed ({last}) is SMALLER than an earlier one ({md_max}; {} MAX_DATA frames processed, peer's initial_max_data {}) — a stale window update lowered the connection send limit; peer advertised up to {}, {ep} sent {} *_BLOCKED frames",
-                    me.md.len(), peer.imd, pf.adv_md, me.blocked)));
+                    "{ep} stopped sending after {sent} of {to_send} bytes: the last MAX_DATA it processed ({last}) is SMALLER than an earlier one ({md_max}; {} MAX_DATA frames processed, peer's initial_max_data {}) and it stopped between the two — consistent with a stale window update having LOWERED the connection send limit; peer advertised up to {}, {ep} sent {} *_BLOCKED frames, its latest DATA_BLOCKED names limit {:?}",
+                    me.md.len(), peer.imd, pf.adv_md, me.blocked, me.last_data_blocked)));
             } else if sent >= md_max {
                 let why = if pf.adv_md > md_max { format!("the {peer_name} sent MAX_DATA {} which never reached the {ep} (lost and not retransmitted?)", pf.adv_md) } else { format!("the {peer_name} never advertised more than {}", pf.adv_md.max(peer.imd as u64)) };
                 out.push(("stall:flow-control:conn".into(), format!(
@@ -468,8 +523,8 @@ fn diagnose(pk: &[PktEv], plans: &[Plan], c: &Side, s: &Side) -> Vec<(String, St
             let mx = vals.iter().copied().max().unwrap_or(0).max(init);
             let last = vals.last().copied();
             let adv = pf.adv_msd.get(&seq).copied().unwrap_or(0);
-            if let Some(l) = last.filter(|l| unique && *l < mx && hi >= *l) {
-                out.push(("stall:flow-control:stream".into(), format!("{ep} stopped sending on stream {} after {hi} of {} bytes: the last MAX_STREAM_DATA it processed ({l}) is smaller than an earlier one ({mx}) — a stale update lowered the stream send limit", p.sid, p.len)));
+            if let Some(l) = last.filter(|l| unique && *l < mx && hi >= *l && hi < mx) {
+                hints.push(format!("{ep} stopped on stream {} after {hi} of {} bytes, between the last MAX_STREAM_DATA it processed ({l}) and an earlier, larger one ({mx})", p.sid, p.len));
             } else if hi >= mx {
                 let why = if adv > mx { format!("the {peer_name} sent MAX_STREAM_DATA {adv} which never reached the {ep}") } else { format!("the {peer_name} never advertised more than {}", adv.max(init)) };
                 out.push(("stall:flow-control:stream".into(), format!("{ep} stopped sending on stream {} after {hi} of {} bytes at the stream limit {mx} ({} MAX_STREAM_DATA processed, last {last:?}, initial {init}): {why}", p.sid, p.len, vals.len())));
@@ -492,7 +547,7 @@ fn diagnose(pk: &[PktEv], plans: &[Plan], c: &Side, s: &Side) -> Vec<(String, St
             }
         }
     }
-    out
+    (out, hints)
 }
 
 // ---------------------------------------------------------------------------------------------
@@ -526,7 +581,7 @@ fn run(o: &Opts) {
             apply_side!(cfg.client_params, c);
             apply_side!(cfg.server_params, s);
             let idle = Duration::from_secs(c.idle_s.min(s.idle_s));
-            let adv = CtrlAdversary::new(Rng::new(seed ^ 0xADD5, id), profile.clone());
+            let adv = CtrlAdversary::new(Rng::new(seed ^ 0xADD5, id), profile.clone(), tap.clone());
             let pl2 = plans.clone();
             let out = sim::run_case(id, Duration::from_secs(120), move || c02::one_case_adv(Box::new(adv), pl2, idle, Duration::from_secs(120), cfg, true));
             (id, c, s, mode, plans, profile, out, tap.take())
@@ -580,7 +635,7 @@ fn run(o: &Opts) {
                 if !out.wall_hang && out.panics.is_empty() {
                     sink.monitor_fail("harness:no-result", "case produced no result");
                 }
-                for (k, w) in diagnose(&pk, &plans, &c, &s) {
+                for (k, w) in diagnose(&pk, &plans, &c, &s).0 {
                     sink.monitor_fail(&k, &format!("{w} (profile {})", profile.name));
                 }
                 sink.line("end", "complete=0 panicked=1");
@@ -600,7 +655,7 @@ fn run(o: &Opts) {
                 }
             }
             if !r.complete {
-                let diags = diagnose(&pk, &plans, &c, &s);
+                let (diags, hints) = diagnose(&pk, &plans, &c, &s);
                 for (k, w) in &diags {
                     sink.monitor_fail(k, &format!("{w} (profile {})", profile.name));
                 }
@@ -610,7 +665,7 @@ fn run(o: &Opts) {
                         "liveness:bounded-faults-incomplete",
                         &format!("profile {}: after {} ms virtual the transfers were not complete (client_done={:?} server_done={:?} dirs {}/{} term_c={:?} term_s={:?} faults {:?}; flow-control diagnosis: {}; params c={{{}}} s={{{}}})",
                             profile.name, r.virt_ms, r.client_done, r.server_done, r.complete_dirs, r.expected_dirs, r.term_c, r.term_s, r.counts,
-                            if diags.is_empty() { "no sender sits at a limit".to_string() } else { diags.iter().map(|d| d.0.clone()).collect::<Vec<_>>().join(",") },
+                            if diags.is_empty() && hints.is_empty() { "no sender sits at a limit".to_string() } else { diags.iter().map(|d| d.0.clone()).chain(hints.iter().map(|h| format!("hint: {h}"))).collect::<Vec<_>>().join(", ") },
                             side_tokens("c", &c), side_tokens("s", &s)),
                     );
                 }
